@@ -146,3 +146,22 @@ class _SquareTable:
         if y not in self._seen:
             self._seen[y] = y * y
         return self._seen[y]
+
+
+_DEFAULT_OPTIONS = {"n": 1.0}
+
+
+class SharesDefaults:
+    # every instance built without options holds the module's own dictionary
+    def __init__(self, options=None):
+        if options is None:
+            options = _DEFAULT_OPTIONS
+        self.options = options
+
+
+class CopiesDefaults:
+    # clean twin: a private copy per instance
+    def __init__(self, options=None):
+        if options is None:
+            options = dict(_DEFAULT_OPTIONS)
+        self.options = options
